@@ -30,7 +30,9 @@ VARIABLES cfg, sels, phase
 gvars == <<cfg, sels, phase>>
 
 GInit == /\ cfg \in [nl : NL, nm : NM, nu : {0, 1}, xc : XC, fill : Fill, inter : BOOLEAN, dup : BOOLEAN,
-                     depth : 0..2, extras : Extras, ext : ExtShapes]
+                     depth : 0..2, extras : Extras, ext : ExtShapes, own : {"none", "mid", "last"}]
+         /\ (cfg.own # "none" => cfg.nm >= 2)                 \* list M defines its own choice named 'other' (first or last row)
+         /\ (~Wide => (cfg.own = "none" \/ (cfg.xc = 0 /\ cfg.extras = 0 /\ cfg.ext = 0 /\ cfg.depth = 0)))
          /\ (cfg.xc = 0 => cfg.fill = "all")                 \* sparsity only matters with extra columns
          /\ (cfg.nm = 0 => ~cfg.inter)                        \* interleaving needs two lists
          /\ (cfg.dup => cfg.nl >= 2)
